@@ -21,6 +21,8 @@ JS_RESERVED_RUST_OK = ["delete", "new", "class", "function", "default", "var", "
                        "protected", "public", "interface", "implements", "extends", "arguments", "eval"]
 # Rust keywords usable only as raw identifiers
 RAW_IDENTS = ["r#type", "r#match", "r#in", "r#enum", "r#typeof", "r#try", "r#yield", "r#let", "r#static", "r#const"]
+WORDS_UNI = ["größe", "naïve_flag", "имя_поля", "名前", "température_max"]
+FN_UNI = ["größe_ändern", "получить_данные", "データ取得", "mise_à_jour"]
 WORDS = ["id", "name", "user_id", "created_at", "value", "items", "is_active", "x1", "http_code", "a", "data_2d", "first_name",
          "last_login_ip", "b2b", "_hidden", "count", "total_amount", "kind", "payload", "opts", "q"]
 TYPE_NAMES = ["User", "Profile", "Settings", "Item", "Order", "Address", "Status", "Kind", "Report", "Node", "Leaf", "Meta",
@@ -28,10 +30,16 @@ TYPE_NAMES = ["User", "Profile", "Settings", "Item", "Order", "Address", "Status
 FN_WORDS = ["get_user", "save", "list_items", "do_it", "fetch_all", "update_profile", "ping", "compute_2x", "load", "sync_now",
             "get_class", "new_item", "delete_all", "x", "a_b_c", "import_data", "void_order", "_private_cmd"]
 EVENT_SAFE = ["progress", "user_updated", "item-added", "app-ready", "a", "sync2", "Tick", "download-progress-2", "x_y-z", "9lives"]
+# non-ASCII event names over everything char::is_alphanumeric (Tauri's rule) accepts: letters of several scripts,
+# Nd digits of other scripts, Nl (Roman numerals), No (superscripts, subscripts, fractions, circled numbers)
+EVENT_UNI = ["co₂:level", "area-m²/changed", "½-done", "①-step", "x³", "данные/обновлены", "データ更新", "عدد٣", "수정-완료",
+             "Ⅷ-ready", "naïve_event", "température", "数据:更新/完成", "fullwidth１２", "όνομα-αλλαγή", "नाम-बदला", "¼¾"]
 EVENT_BAD = ["user:created", "app/ready", "ns:sub/evt", "a:b", "files/changed-now", "x:1", "app://ready"]
 MSG_POOL = ["too short", "must be 1-10", "Ungültige Länge", "名前が必要です", "say \"hi\"", "back\\slash", "tab\there", "line\nbreak",
             "it's", "50% (approx)", "a, b", "émoji 🎉 ok", "quote\" and \\ both", "cr\rlf", "</script>", "${x}", "`tick`", "ends with \\"]
-RENAME_IDENT = ["fullName", "ID", "$ref", "_x", "ünï", "UserName2", "x"]
+RENAME_IDENT = ["fullName", "ID", "$ref", "_x", "ünï", "UserName2", "x", "имя", "名前", "όνομα", "اسم", "नाम", "이름", "größe", "x٣", "データ１", "Ⅷ"]
+# names that char::is_alphanumeric accepts but ECMAScript does not (category No after a letter)
+RENAME_OTHER_NUMBER = ["m²", "co₂", "x½", "a①", "m³_per_s", "größe²"]
 RENAME_BAD = ["full-name", "FULL-NAME", "full name", "a\"b", "a\\b", "", "has.dot", "1abc", "a:b", "x-1", "naïve-key", "@type", "a/b"]
 RENAME_VARIANT_OK = ["not-started", "IN PROGRESS", "done", "ünï-code", "a\\\\b", "with 'single'", "x/y:z", ""]
 RENAME_VARIANT_BAD = ["a\"b", "ends\\", "q\"\"q"]
@@ -133,7 +141,7 @@ def gen_case(rng, profile, idx=0):
     triggers = []
     if adversarial:
         triggers = rng.sample(["kebab_all", "rename_bad", "raw_ident", "reserved_fn", "event_bad", "path", "comma", "kebab_param",
-                               "kebab_field_cfg", "variant_bad", "chan_kebab"], rng.randint(1, 3))
+                               "kebab_field_cfg", "variant_bad", "chan_kebab", "key_other_number"], rng.randint(1, 3))
         tags += triggers
     if "kebab_param" in triggers or "chan_kebab" in triggers:
         cfg["param_case"] = rng.choice(CASES8[6:])
@@ -165,7 +173,7 @@ def gen_case(rng, profile, idx=0):
             items.append({"kind": "enum", "name": n, "derives": ["Serialize", "Deserialize"], "serde": serde, "variants": vs})
             continue
         fields = []
-        pool = WORDS + (JS_RESERVED_RUST_OK if rng.random() < 0.5 else [])
+        pool = WORDS + (JS_RESERVED_RUST_OK if rng.random() < 0.5 else []) + (WORDS_UNI if rng.random() < 0.3 else [])
         if "raw_ident" in triggers and rng.random() < 0.6:
             pool = pool + RAW_IDENTS
         for fname in pick_names(rng, pool, rng.randint(0, 5)):
@@ -187,7 +195,10 @@ def gen_case(rng, profile, idx=0):
             fserde = []
             r = rng.random()
             if r < 0.2:
-                fserde.append({"rename": rng.choice(RENAME_BAD if ("rename_bad" in triggers and rng.random() < 0.7) else RENAME_IDENT)})
+                if "key_other_number" in triggers and rng.random() < 0.7:
+                    fserde.append({"rename": rng.choice(RENAME_OTHER_NUMBER)})
+                else:
+                    fserde.append({"rename": rng.choice(RENAME_BAD if ("rename_bad" in triggers and rng.random() < 0.7) else RENAME_IDENT)})
             elif r < 0.27:
                 fserde.append({"skip": True})
             elif r < 0.32:
@@ -202,11 +213,13 @@ def gen_case(rng, profile, idx=0):
         fn_pool = JS_RESERVED_RUST_OK
     if "raw_ident" in triggers and rng.random() < 0.5:
         fn_pool = fn_pool + RAW_IDENTS[:3]
+    if rng.random() < 0.25 and "reserved_fn" not in triggers:
+        fn_pool = fn_pool + FN_UNI
     events = []
     cmd_items = []
     for cname in pick_names(rng, fn_pool, ncmds):
         params = []
-        ppool = WORDS + (JS_RESERVED_RUST_OK if rng.random() < 0.6 else [])
+        ppool = WORDS + (JS_RESERVED_RUST_OK if rng.random() < 0.6 else []) + (WORDS_UNI if rng.random() < 0.3 else [])
         if "raw_ident" in triggers and rng.random() < 0.6:
             ppool = ppool + RAW_IDENTS
         for pname in pick_names(rng, ppool, rng.randint(0, 3)):
@@ -239,7 +252,7 @@ def gen_case(rng, profile, idx=0):
         if rng.random() < 0.35 or ("event_bad" in triggers and rng.random() < 0.8):
             if not any(p["name"] == "app" for p in params):
                 params.insert(0, {"name": "app", "ty": P("AppHandle", segs=["tauri"])})
-            en = rng.choice(EVENT_BAD if ("event_bad" in triggers and rng.random() < 0.7) else EVENT_SAFE)
+            en = rng.choice(EVENT_BAD if ("event_bad" in triggers and rng.random() < 0.7) else (EVENT_UNI if rng.random() < 0.35 else EVENT_SAFE))
             cands = [p for p in params if p["name"] not in ("app", "state") and not p["name"].startswith("r#")
                      and p["ty"].get("name") not in ("Channel",)]
             if cands and rng.random() < 0.7:
@@ -291,7 +304,29 @@ def witnesses():
     w["C01-half-generic"] = {"project": _proj([user([f("name")]), _cmd("all_users", [], P("Result", P("HashMap", P("String"), P("User")), P("String")))]), "cfg": DEFAULT_CFG}
     w["C01-half-generic/tuple"] = {"project": _proj([user([f("pair", Tup(P("HashMap", P("String"), P("i32")), P("bool")))]), get]), "cfg": DEFAULT_CFG}
     w["C01-prefix-tuple"] = {"project": _proj([_cmd("pairs", [], P("Vec", Tup(P("String"), P("i32"))))]), "cfg": DEFAULT_CFG}
+    w["C01-key-other-number"] = {"project": _proj([user([f("area", P("f64"), serde=[{"rename": "m²"}]), f("age", P("u8"))]), get]), "cfg": DEFAULT_CFG}
+    w["regression:unicode-events"] = {"project": _proj([_cmd("notify", [{"name": "app", "ty": P("AppHandle", segs=["tauri"])}, {"name": "msg", "ty": P("String")}], None,
+                                                           [{"emit": "co₂:level", "recv": "app", "payload": "msg"}, {"emit": "area-m²/changed", "recv": "app", "payload": "msg"},
+                                                            {"emit": "данные/обновлены", "recv": "app", "payload": "msg"}, {"emit": "①-step", "recv": "app", "payload": "msg"}])]), "cfg": DEFAULT_CFG}
     w["C01-literal-backslash"] = {"project": _proj([{"kind": "enum", "name": "Status", "derives": ["Serialize", "Deserialize"], "serde": [],
                                                      "variants": [{"name": "Active", "serde": [{"rename": "a\"b"}]}, {"name": "Done", "serde": []}]},
                                                     _cmd("status", [], P("Status"))]), "cfg": DEFAULT_CFG}
     return w
+
+
+def big_project():
+    """A fixed, large project: generated first (other mode) into the same output directory by the
+    output-directory-state stream, so that every file of the second generation is shorter than the one it replaces."""
+    items = []
+    for i in range(6):
+        items.append({"kind": "struct", "name": "EarlierGenerationStruct%d" % i, "derives": ["Serialize", "Deserialize"], "serde": [],
+                      "fields": [{"name": "a_rather_long_field_name_%d_%d" % (i, j), "ty": P("HashMap", P("String"), P("Vec", P("Option", P("i64")))),
+                                  "serde": [], "validate": []} for j in range(8)]})
+    for i in range(8):
+        items.append(_cmd("earlier_generation_command_number_%d" % i,
+                          [{"name": "app", "ty": P("AppHandle", segs=["tauri"])}] +
+                          [{"name": "parameter_with_long_name_%d" % j, "ty": P("EarlierGenerationStruct%d" % ((i + j) % 6))} for j in range(3)] +
+                          [{"name": "progress_channel", "ty": P("Channel", P("EarlierGenerationStruct0"))}],
+                          P("Result", P("Vec", P("EarlierGenerationStruct%d" % (i % 6))), P("String")),
+                          [{"emit": "earlier-generation-event-%d" % i, "recv": "app", "payload": "parameter_with_long_name_0"}]))
+    return {"project": _proj(items), "cfg": DEFAULT_CFG}
